@@ -206,6 +206,12 @@ var solverCmd = map[string][]string{
 }
 
 func runSolver(solver, file string, timeout time.Duration) (status, out string, ms int64) {
+	return runSolverCtx(context.Background(), solver, file, timeout)
+}
+
+// runSolverCtx: as runSolver; the process is killed when parent is cancelled (a portfolio member whose answer is no
+// longer needed because another member has proved the obligation). A cancelled run reports "timeout".
+func runSolverCtx(parent context.Context, solver, file string, timeout time.Duration) (status, out string, ms int64) {
 	args := append([]string{}, solverCmd[solver][1:]...)
 	switch solver {
 	case "z3new", "z3", "z3cs", "z3qi":
@@ -214,7 +220,7 @@ func runSolver(solver, file string, timeout time.Duration) (status, out string, 
 		args = append(args, fmt.Sprintf("--tlimit=%d", timeout.Milliseconds()))
 	}
 	args = append(args, file)
-	ctx, cancel := context.WithTimeout(context.Background(), timeout+2*time.Second)
+	ctx, cancel := context.WithTimeout(parent, timeout+2*time.Second)
 	defer cancel()
 	cmd := exec.CommandContext(ctx, solverCmd[solver][0], args...)
 	var buf bytes.Buffer
@@ -501,15 +507,18 @@ func solveOne(eng *Engine, fv *funcVC, k, id int, opt solveOpts) *Result {
 				}
 			}
 		}
+		ctx1, cancel1 := context.WithCancel(context.Background())
+		defer cancel1()
 		for _, s := range first {
 			go func(s string) {
-				st, out, _ := runSolver(s, files[s], short)
+				st, out, _ := runSolverCtx(ctx1, s, files[s], short)
 				c1 <- a1{s, st, out}
 			}(s)
 		}
 		for range first {
 			a := <-c1
 			if a.st == "unsat" {
+				cancel1() // the other members' answers are no longer needed
 				return done("unsat", a.s, time.Since(start).Milliseconds())
 			}
 			if res.Status == "" || a.st == "sat" {
@@ -528,9 +537,11 @@ func solveOne(eng *Engine, fv *funcVC, k, id int, opt solveOpts) *Result {
 		files["z3cs"] = files["z3new"]
 	}
 	ch := make(chan ans, len(stage2))
+	ctx2, cancel2 := context.WithCancel(context.Background())
+	defer cancel2()
 	for _, s := range stage2 {
 		go func(s string) {
-			st, out, _ := runSolver(s, files[s], opt.timeout)
+			st, out, _ := runSolverCtx(ctx2, s, files[s], opt.timeout)
 			ch <- ans{s, st, out}
 		}(s)
 	}
@@ -543,6 +554,7 @@ func solveOne(eng *Engine, fv *funcVC, k, id int, opt solveOpts) *Result {
 		if a.st == "unsat" && proved == "" {
 			proved = a.s
 			if !opt.allAgree {
+				cancel2()
 				break
 			}
 		}
@@ -564,15 +576,18 @@ func solveOne(eng *Engine, fv *funcVC, k, id int, opt solveOpts) *Result {
 		type a3 struct{ s, st string }
 		c3 := make(chan a3, 2)
 		files["z3qi"] = files["z3new"]
+		ctx3, cancel3 := context.WithCancel(context.Background())
+		defer cancel3()
 		for _, s := range []string{"z3qi", "cvc5"} {
 			go func(s string) {
-				st, _, _ := runSolver(s, files[s], 3*opt.timeout)
+				st, _, _ := runSolverCtx(ctx3, s, files[s], 3*opt.timeout)
 				c3 <- a3{s, st}
 			}(s)
 		}
 		for i := 0; i < 2; i++ {
 			a := <-c3
 			if a.st == "unsat" {
+				cancel3()
 				return done("unsat", a.s+"(slow)", time.Since(start).Milliseconds())
 			}
 		}
